@@ -477,6 +477,121 @@ def gen_bystander(rng):
     return defs + seq
 
 
+ROOT_CONFIGS = ['bare', 'non-recursive', 'dump-config', 'load-config', 'any']
+
+
+def _root_config(rng, config):
+    """(kind, meta, style) of a root that nests the shared class, by the way it is configured:
+      bare            no Meta at all (plain dataclass / JSONWizard without settings)
+      non-recursive   a Meta of its own with dump- and load-side settings that stops at the class (recursive = False)
+      dump-config     a recursive Meta that sets dump-side settings (key transform and / or TIMESTAMP), as inner class or DumpMeta
+      load-config     a recursive Meta that sets load-side settings (key transform, strict unknown keys), as inner class or LoadMeta
+      any             whatever gen_pair2 draws for its configured root (every mixin, every style, v1 now and then)"""
+    if config == 'bare':
+        return rng.choice(['plain', 'plain', 'json', 'file']), None, None
+    if config == 'any':
+        kind = rng.choice(list(KINDS))
+        return kind, pick_meta2(rng, v1=rng.random() < 0.2), rng.choice((['inner', 'inner'] if KINDS[kind][1] else []) + ['bind-load', 'bind-dump', 'bind-both'])
+    kind = rng.choice(['plain', 'json', 'json', 'file', 'py'])
+    m = pick_meta2(rng)
+    m['special'].pop('recursive', None)
+    m['special'].pop('tag', None)
+    side = 'dump' if config == 'dump-config' else 'load' if config == 'load-config' else 'both'
+    if side in ('dump', 'both'):
+        which = rng.choice(['kt', 'ts', 'both'])
+        if which != 'ts':
+            m['dump']['key_transform_with_dump'] = rng.choice(['SNAKE', 'PASCAL', 'LISP'] if kind != 'py' else STYLES)
+        if which != 'kt':
+            m['dump']['marshal_date_time_as'] = 'TIMESTAMP'
+    if side in ('load', 'both'):
+        which = rng.choice(['kt', 'strict', 'both'])
+        if which != 'strict':
+            m['load']['key_transform_with_load'] = rng.choice(['SNAKE', 'PASCAL', 'LISP', 'NONE'])
+        if which != 'kt':
+            m['load']['raise_on_unknown_json_key'] = True
+    if config == 'non-recursive':
+        m['special']['recursive'] = False
+    styles = (['inner', 'inner'] if KINDS[kind][1] else []) + ['bind-both'] + {'dump': ['bind-dump', 'bind-dump'], 'load': ['bind-load', 'bind-load'], 'both': []}[side]
+    return kind, m, rng.choice(styles)
+
+
+def gen_reach_order(rng):
+    """three or more families, ordered by first use, around ONE nested class N that (mostly) has no Meta of its own:
+      * two or three roots that nest N, each configured in one of the ROOT_CONFIGS ways - always at least one root through which no
+        configuration reaches N (bare / non-recursive) and at least one whose recursive Meta sets dump- or load-side settings -, now
+        and then N used on its own as a family;
+      * one or two bystander families (a root, mostly with a nested class of its own, mostly without any Meta) that have nothing in
+        common with N or its roots.
+    The order in which the families are used for the first time is a uniformly drawn permutation (so N is first reached through the
+    unconfigured root, the configured one, or alone; bystanders are first used before, between and after), a family's class
+    statements stand at the top or right before its first use (a class that only comes to exist after the others were exercised),
+    and the first phase of a family mostly has both a dump and a load.  What per-class state N's first use leaves behind decides
+    where the later Metas are written: whatever that is, it may never reach the bystanders.  Returns the op list."""
+    n = model.fresh('N')
+    own_n = rng.random() < 0.12
+    n_kind = rng.choice(['plain', 'plain', 'json'])
+    n_meta = pick_meta_nested(rng) if own_n else None
+    n_style = rng.choice((['inner', 'inner'] if KINDS[n_kind][1] else []) + ['bind-load', 'bind-dump', 'bind-both']) if own_n else None
+    top, _ = cls2(rng, n, n_kind, meta=n_meta, style=n_style)
+    top = list(top)
+    configs = [rng.choice(['bare', 'bare', 'non-recursive']), rng.choice(['dump-config', 'dump-config', 'load-config'])]
+    if rng.random() < 0.5:
+        configs.append(rng.choice(ROOT_CONFIGS))
+    rng.shuffle(configs)
+    fams = []          # (definition ops, op pool)
+    for config in configs:
+        r = model.fresh('R')
+        kind, meta, style = _root_config(rng, config)
+        shape = rng.choice(['single', 'single', 'list', 'optional'])
+        r_defs, _ = cls2(rng, r, kind, n, shape, meta, style)
+        fams.append((r_defs, _ops2(rng, r, kind, n, shape, [r, n], n_dumps=3)))
+    if rng.random() < 0.3:
+        fams.append(([], _ops2(rng, n, n_kind, None, None, [n])))
+    for _ in range(rng.choice([1, 1, 2])):
+        g = model.fresh('G')
+        g_kind = rng.choice(['plain', 'plain', 'json', 'json', 'json'] + list(KINDS))
+        g_meta = pick_meta2(rng, v1=rng.random() < 0.2) if rng.random() < 0.2 else None
+        g_style = rng.choice((['inner'] if KINDS[g_kind][1] else []) + ['bind-load', 'bind-dump', 'bind-both']) if g_meta else None
+        if rng.random() < 0.7:
+            n2, g_shape = model.fresh('N'), rng.choice(['single', 'list'])
+            n2_defs, _ = cls2(rng, n2, rng.choice(['plain', 'json']))
+            g_defs, _ = cls2(rng, g, g_kind, n2, g_shape, g_meta, g_style)
+            fams.append((n2_defs + g_defs, _ops2(rng, g, g_kind, n2, g_shape, [g, n2], n_docs=4) + _ops2(rng, n2, 'plain', None, None, [n2], n_docs=1, n_dumps=1)))
+        else:
+            g_defs, _ = cls2(rng, g, g_kind, None, None, g_meta, g_style)
+            fams.append((g_defs, _ops2(rng, g, g_kind, None, None, [g], n_docs=4)))
+    rng.shuffle(fams)                      # the first-use order
+    seq = []
+    for defs, pool in fams:
+        if rng.random() < 0.5:
+            top += defs
+        else:
+            seq += defs
+        phase = [copy.deepcopy(rng.choice(pool)) for _ in range(rng.randint(1, 2))]
+        for kind_, p in (('dump', 0.8), ('load', 0.7)):
+            if rng.random() < p and not any(op['op'] == kind_ for op in phase):
+                phase.append(copy.deepcopy(rng.choice([op for op in pool if op['op'] == kind_])))
+        rng.shuffle(phase)
+        seq += phase
+    for _ in range(rng.randint(0, 3)):
+        seq.append(copy.deepcopy(rng.choice(rng.choice(fams)[1])))
+    return top + seq
+
+
+def reach_order_stream(ctx, budget, n, base_index=400000):
+    """C07 oracle over gen_reach_order histories (its own stream of the seed)"""
+    import random
+    rng = random.Random(f'{ctx.prop_id}:{ctx.seed}:reach-order')
+    for j in range(n):
+        i = base_index + j
+        if ctx.done(i):
+            break
+        ops = gen_reach_order(rng)
+        if not ctx.begin_case(i):
+            continue
+        check_history(budget, 'isolation-wide:reach-order', i, ops, attribute=attribute_c07)
+
+
 class Name(str):
     """a setting given by reference to a module-level object: rendered as the bare name in class source"""
 
@@ -676,7 +791,10 @@ def run(ctx: C.Ctx):
                 'bystander family whose first use mostly comes last, F\'s LoadMeta / DumpMeta bound at once or after the others were used; two '
                 'families sharing only the identity of a configuration object - one module-level json_key_to_field / v1_field_to_alias mapping named '
                 'by both Metas, or one LoadMeta / DumpMeta object bound to both roots - with different load key transforms, G sometimes '
-                'without the nested field and fed its key) in every '
+                'without the nested field and fed its key; three to six families around one Meta-less nested class N: two or three roots nesting N that '
+                'are bare / carry a non-recursive Meta / a recursive Meta with dump-side (key transform, TIMESTAMP) or load-side (key transform, '
+                'strict unknown keys) settings as inner class or LoadMeta / DumpMeta, N on its own now and then, and one or two wholly unrelated '
+                'bystander families, first used in a uniformly drawn order, class statements at the top or right before the first use) in every '
                 'operation order (G before F, after F, interleaved); each history runs in a forked pristine child; every G operation is re-run '
                 'with only G\'s definitions in another pristine child (C07: behaviour of G with F == behaviour of G alone); dump outcomes are '
                 'reduced to (class, key style, timestamps?) fingerprints and compared with the Lean cache state machine. '
@@ -730,6 +848,7 @@ def run(ctx: C.Ctx):
     caches_stream(ctx, ctx.quick(60, 800))
     bystander_stream(ctx, budget, ctx.quick(70, 800))
     shared_object_stream(ctx, budget, ctx.quick(70, 800))
+    reach_order_stream(ctx, budget, ctx.quick(60, 700))
     if ctx.model_available and reqs:
         outs = ctx.driver.run(reqs)
         for (case, full, watch, names), o in zip(pend, outs):
